@@ -91,7 +91,7 @@ def hist_astype(rng):
 
 
 def histories(rng, tier):
-    n = 150 if tier == 'quick' else 3000
+    n = 350 if tier == 'quick' else 3000
     out = []
     for _ in range(n):
         r = rng.random()
